@@ -366,9 +366,23 @@ def start_thread(a, ctx):
         import _thread
         rec['name'] = None      # such a thread has no name of its own
         _thread.start_new_thread(body, ())
+    elif a.get('api') == 'timer':
+        # threading.Timer: a Thread subclass with its own run(); it sits in
+        # its interval until cancelled
+        t = threading.Timer(3600, lambda: None)
+        if a.get('name'):
+            t.name = a['name']
+        t.daemon = bool(a.get('daemon', True))
+        t.start()
+        rec['thread'] = t
+        rec['ident'] = t.ident
+        rec['cancel'] = t.cancel
+        if a.get('name') is None:
+            rec['name'] = t.name
+        started.set()
     else:
         t = threading.Thread(target=body, name=a.get('name'))
-        t.daemon = True
+        t.daemon = bool(a.get('daemon', True))
         t.start()
         rec['thread'] = t
         if a.get('name') is None:
@@ -387,6 +401,8 @@ def release_thread(key, wait_gone=True):
         return
     rec['released'] = True
     rec['ev'].set()
+    if rec.get('cancel'):
+        rec['cancel']()
     gone = None
     if wait_gone:
         deadline = time.monotonic() + 10
@@ -399,6 +415,8 @@ def release_thread(key, wait_gone=True):
             time.sleep(0.001)
         else:
             gone = False
+    if gone and rec.get('cancel'):
+        rec['finished'] = True
     emit('thread.release', key=key, gone=gone, ident=rec['ident'])
 
 
